@@ -102,6 +102,24 @@ func genC04(e *emitter, tier string, seed uint64) {
 			tx.Inputs[pos].PreviousTxScript = scr(l)
 			hasReturn = true
 		}
+		// the other signing path: FillAllInputs with the library's unlocker getter (default hash type ALL|FORKID) signs
+		// every input — plain P2PKH and inscriptions alike — and each is then accepted
+		{
+			sa := cloneTx(tx)
+			if err := sa.FillAllInputs(context.Background(), &unlocker.Getter{PrivateKey: k.priv}); err != nil {
+				e.note("sign-all-error")
+			} else {
+				era := []int{0, fAfterGenesis}[r.n(2)]
+				if hasReturn {
+					era = fAfterGenesis
+				}
+				for i := 0; i < nIn; i++ {
+					res := e.run("C04.mut", fmt.Sprint(fForkID|era), descTx(sa), fmt.Sprint(i), fmt.Sprint(sats[i]), hexE(locks[i]),
+						descTx(sa), fmt.Sprint(i), fmt.Sprint(sats[i]), hexE(locks[i]))
+					e.note("mut.fill-all-inputs." + strings.Fields(res)[0])
+				}
+			}
+		}
 		for fi, ft := range flagTypes {
 			if quick && (fi+sh)%3 != 0 && !(sh >= 5 && sh <= 8 && ft.ht&0x1f == 3) {
 				continue
